@@ -410,9 +410,10 @@ def gen_data_case(rng):
     data = A.gen_data(rng, 6)
     while not data:
         data = A.gen_data(rng, 6)
-    ds = rng.choice([0x4001, 0x4002, 0x4003, 0x4004, 0x5003, 0x8001]) if rng.random() < 0.12 else None
+    ds = rng.choice([0x4001, 0x4002, 0x4003, 0x4004, 0x5003, 0x8001, 0x0, 0x100, 0x7F0, 0x800, 0xFFC, 0x1000]) if rng.random() < 0.15 else None
     vars_, img, _ = A.layout(data, None if ds is None else (ds + 3) & ~3)
     stmts = []
+    small_pool = rng.random() < 0.5
     for _ in range(rng.randint(1, 10)):
         name = rng.choice(sorted(vars_))
         addr, w, n = vars_[name]
@@ -420,6 +421,9 @@ def gen_data_case(rng):
         use_idx = idx > 0 or rng.random() < 0.5
         k = rng.random()
         rd, rs1, rs2 = rng.randrange(1, 32), rng.randrange(32), rng.randrange(1, 32)
+        if small_pool:
+            # few registers: scratch / destination registers are re-used while they still hold earlier results
+            rd, rs1, rs2 = rng.choice([6, 7, 28, 29]), rng.choice([0, 6, 7, 28, 29]), rng.choice([6, 7, 28, 29])
         if k < 0.3:
             stmts.append({"k": "la", "rd": rd, "var": name, "idx": idx if use_idx else None})
         elif k < 0.65:
